@@ -82,8 +82,8 @@ def spec (feats : Features) (t : List String) : Option String :=
   | ["pf", _ty, h, _partial, _lossy, exp, dp, _nan, _inf, _infinity, _input] =>
     let u := unpack (fmtOf h)
     let e := firstViolated feats u
-    if ¬ ValidAscii exp.toNat! then some "opterr InvalidExponentSymbol -"
-    else if ¬ ValidAscii dp.toNat! then some "opterr InvalidDecimalPoint -"
+    if ¬ ValidAscii exp.toNat! then some "opterr"  -- kind and order: Model.OptionsValid / props/C18.py op_check
+    else if ¬ ValidAscii dp.toNat! then some "opterr"
     else if e ≠ "Success" then some s!"err {e} -"
     else if ¬ OptionsPunctuationValid feats u exp.toNat! dp.toNat! then some "err InvalidPunctuation -"
     else if !mixedRadixDocumented feats u then some "err InvalidRadix -"
@@ -92,8 +92,8 @@ def spec (feats : Features) (t : List String) : Option String :=
   | ["wi", _ty, h, _v, _buf] =>
     if firstViolated feats (unpack (fmtOf h)) ≠ "Success" then some "panic" else none
   | "wf" :: _ty :: h :: _bits :: _max :: _min :: _pos :: _neg :: _round :: _trim :: exp :: dp :: _ =>
-    if ¬ ValidAscii exp.toNat! then some "opterr InvalidExponentSymbol -"
-    else if ¬ ValidAscii dp.toNat! then some "opterr InvalidDecimalPoint -"
+    if ¬ ValidAscii exp.toNat! then some "opterr"  -- kind and order: Model.OptionsValid / props/C18.py op_check
+    else if ¬ ValidAscii dp.toNat! then some "opterr"
     else if firstViolated feats (unpack (fmtOf h)) ≠ "Success" then some "panic"
     else if !mixedRadixDocumented feats (unpack (fmtOf h)) then some "panic" else none
   | _ => none
